@@ -1,9 +1,178 @@
 package main
 
 import (
-	_ "golang.org/x/tools/go/packages"
-	_ "golang.org/x/tools/go/ssa"
-	_ "golang.org/x/tools/go/ssa/ssautil"
+	"encoding/json"
+	"flag"
+	"fmt"
+	"os"
+	"sort"
+	"strings"
+	"time"
 )
 
-func main() {}
+type HarnessOut struct {
+	Harness      string                   `json:"harness"`
+	Verdict      string                   `json:"verdict"` // held | violated | inconclusive
+	Paths        int                      `json:"paths"`
+	Infeasible   int                      `json:"infeasible_prefixes"`
+	Decisions    int                      `json:"decisions"`
+	DecisionKind map[string]int           `json:"decision_kinds"`
+	Steps        int                      `json:"ssa_steps"`
+	Violations   []Violation              `json:"violations"`
+	Bounds       map[string]int           `json:"bound_hits"`
+	Unsupported  map[string]int           `json:"unsupported"`
+	Internal     map[string]int           `json:"internal_errors"`
+	Unknowns     int                      `json:"solver_unknowns"`
+	Reach        map[string]int           `json:"reach"`
+	Ends         map[string]int           `json:"path_ends"`
+	Cuts         map[string]int           `json:"cuts"`
+	Foreign      map[string]int           `json:"foreign_globals_read"`
+	Queries      map[string]int           `json:"queries"`
+	SolverSec    float64                  `json:"solver_s"`
+	WallSec      float64                  `json:"wall_s"`
+	RepoFns      []map[string]interface{} `json:"functions_encoded"`
+	StdFns       []string                 `json:"stdlib_functions_interpreted"`
+	Intrinsics   map[string]int           `json:"intrinsics_hit"`
+	Samples      []string                 `json:"samples"`
+	DistinctEv   int                      `json:"distinct_event_strings"`
+	SchedPoints  int                      `json:"sched_points"`
+	Switches     int                      `json:"thread_switches"`
+	Truncated    bool                     `json:"truncated"`
+	Config       Config                   `json:"bounds"`
+	Why          []string                 `json:"inconclusive_reasons,omitempty"`
+}
+
+func main() {
+	repo := flag.String("repo", "/repo", "repository")
+	hdir := flag.String("harness-dir", "/verif/harness", "harness directory")
+	files := flag.String("files", "", "comma-separated harness files (default: all *.go except *_test.go)")
+	hs := flag.String("harness", "", "comma-separated harness functions")
+	out := flag.String("out", "", "output JSON file")
+	cfg := Config{}
+	flag.IntVar(&cfg.MaxLoop, "loop", 64, "loop header visits per activation")
+	flag.IntVar(&cfg.MaxDepth, "depth", 200, "call depth")
+	flag.IntVar(&cfg.MaxSteps, "steps", 2000000, "SSA instructions per path")
+	flag.IntVar(&cfg.MaxTicks, "ticks", 8, "ticker fires per path (horizon)")
+	flag.IntVar(&cfg.MakeCut, "makecut", 16, "continue symbolic make only up to this length")
+	flag.IntVar(&cfg.Delays, "delays", 0, "scheduler delay bound D")
+	flag.BoolVar(&cfg.Race, "race", false, "happens-before race detection")
+	flag.StringVar(&cfg.Solver, "solver", "z3", "z3 | z3-new | cvc5")
+	flag.IntVar(&cfg.TimeoutMs, "timeout-ms", 60000, "per-query solver timeout")
+	flag.IntVar(&cfg.MaxPaths, "max-paths", 0, "stop after this many paths (0 = none); stopping is inconclusive")
+	flag.IntVar(&cfg.Workers, "workers", 16, "parallel workers")
+	flag.IntVar(&cfg.Verbose, "v", 0, "verbosity")
+	required := flag.String("require-reach", "", "comma-separated reach markers that must be hit on some path")
+	flag.Parse()
+
+	var fl []string
+	if *files != "" {
+		fl = strings.Split(*files, ",")
+	} else {
+		ents, _ := os.ReadDir(*hdir)
+		for _, e := range ents {
+			if strings.HasSuffix(e.Name(), ".go") && !strings.HasSuffix(e.Name(), "_test.go") {
+				fl = append(fl, e.Name())
+			}
+		}
+	}
+	t0 := time.Now()
+	P, err := LoadProgram(*repo, *hdir, fl)
+	if err != nil {
+		fmt.Fprintln(os.Stderr, "LOAD-ERROR:", err)
+		os.Exit(3)
+	}
+	loadS := time.Since(t0).Seconds()
+	var outs []HarnessOut
+	exit := 0
+	for _, h := range strings.Split(*hs, ",") {
+		if h == "" {
+			continue
+		}
+		sum := Explore(P, cfg, h)
+		o := HarnessOut{Harness: h, Paths: sum.Paths, Infeasible: sum.Infeasible, Decisions: sum.Decisions, DecisionKind: sum.KindCount,
+			Steps: sum.Steps, Violations: sum.Violations, Bounds: sum.Bounds, Unsupported: sum.Unsup, Internal: sum.Internal,
+			Unknowns: sum.Unknowns, Reach: sum.Reach, Ends: sum.Ends, Cuts: sum.Cuts, Foreign: sum.Foreign,
+			Queries:   map[string]int{"total": sum.Queries, "sat": sum.QSat, "unsat": sum.QUnsat, "unknown": sum.QUnknown, "solver_errors": sum.SolverErr},
+			SolverSec: sum.SolverSec, WallSec: sum.WallSec, Intrinsics: sum.IntrHit, SchedPoints: sum.SchedPts, Switches: sum.Switches,
+			Truncated: sum.Truncated, Config: cfg}
+		o.RepoFns, o.StdFns = P.describeFns(sum.FnHit)
+		var evs []string
+		for e := range sum.EventSeqs {
+			evs = append(evs, e)
+		}
+		sort.Strings(evs)
+		o.DistinctEv = len(evs)
+		for i, e := range evs {
+			if i < 12 {
+				o.Samples = append(o.Samples, e)
+			}
+		}
+		// verdict
+		if len(sum.Bounds) > 0 {
+			o.Why = append(o.Why, "unwinding/step bound hit")
+		}
+		if len(sum.Unsup) > 0 {
+			o.Why = append(o.Why, "unsupported construct")
+		}
+		if len(sum.Internal) > 0 {
+			o.Why = append(o.Why, "internal error")
+		}
+		if sum.Unknowns > 0 || sum.SolverErr > 0 {
+			o.Why = append(o.Why, "solver unknown/error")
+		}
+		if sum.Truncated {
+			o.Why = append(o.Why, "path budget exhausted")
+		}
+		if sum.Paths == 0 {
+			o.Why = append(o.Why, "vacuous: no feasible path")
+		}
+		for _, m := range strings.Split(*required, ",") {
+			if m != "" && strings.HasPrefix(m, h+":") {
+				if sum.Reach[strings.TrimPrefix(m, h+":")] == 0 {
+					o.Why = append(o.Why, "vacuous: reach marker "+m+" never hit")
+				}
+			}
+		}
+		switch {
+		case len(sum.Violations) > 0:
+			o.Verdict = "violated"
+			if exit == 0 {
+				exit = 1
+			}
+		case len(o.Why) > 0:
+			o.Verdict = "inconclusive"
+			exit = 2
+		default:
+			o.Verdict = "held"
+		}
+		if len(sum.Violations) > 0 && len(o.Why) > 0 && exit == 1 {
+			// violations stand even when other paths were inconclusive
+		}
+		outs = append(outs, o)
+		if cfg.Verbose > 0 || *out == "" {
+			fmt.Fprintf(os.Stderr, "%-28s %-12s paths=%d infeasible=%d decisions=%d queries=%d (unknown %d) solver=%.2fs wall=%.2fs\n",
+				h, o.Verdict, o.Paths, o.Infeasible, o.Decisions, sum.Queries, sum.QUnknown, sum.SolverSec, sum.WallSec)
+			for _, w := range o.Why {
+				fmt.Fprintln(os.Stderr, "   inconclusive:", w)
+			}
+			for k, n := range sum.Bounds {
+				fmt.Fprintln(os.Stderr, "   bound:", k, n)
+			}
+			for k, n := range sum.Unsup {
+				fmt.Fprintln(os.Stderr, "   unsupported:", k, n)
+			}
+			for k, n := range sum.Internal {
+				fmt.Fprintln(os.Stderr, "   internal:", k, n)
+			}
+			for _, v := range sum.Violations {
+				fmt.Fprintf(os.Stderr, "   VIOL %s: %s site=%s nondets=%v choices=%v events=%v\n", v.Assert, v.Msg, v.Site, v.Nondets, v.Choices, v.Events)
+			}
+		}
+	}
+	res := map[string]interface{}{"load_s": loadS, "harnesses": outs}
+	b, _ := json.MarshalIndent(res, "", " ")
+	if *out != "" {
+		os.WriteFile(*out, b, 0o644)
+	}
+	os.Exit(exit)
+}
